@@ -90,6 +90,7 @@ type replayObj struct {
 	Torn    string   `json:"torn,omitempty"`
 	Treap   []string `json:"treap,omitempty"`
 	Class   string   `json:"class,omitempty"` // part (a): the disagreement class this replay is about
+	Seed    int64    `json:"seed,omitempty"`  // math/rand seed (treap priorities) under which the case was confirmed
 }
 
 type violSet struct {
